@@ -472,16 +472,16 @@ def check_delegation(rep, app):
 
 # ---- R13.f -----------------------------------------------------------------------------------------------------------
 def _swallows(fi, handler):
-    """The handler ends the exception: nothing in its body can raise (``pass``, ``return <name>``, plain bindings of
-    names / constants)."""
-    from ..cfg import stmt_may_raise
-    for s in ast.walk(handler):
+    """The handler ends the exception: no ``raise`` statement in its body (nested definitions aside).  What else the body does
+    (``pass``, ``return``, a log call) does not let the *caught* exception out."""
+    todo = list(handler.body)
+    while todo:
+        s = todo.pop()
         if isinstance(s, ast.Raise):
             return False
-        if isinstance(s, ast.stmt) and s is not handler and not isinstance(s, (ast.If, ast.Try)) and stmt_may_raise(s):
-            return False
-        if isinstance(s, ast.If) and stmt_may_raise(s):
-            return False
+        if isinstance(s, (ast.FunctionDef, ast.AsyncFunctionDef, ast.ClassDef, ast.Lambda)):
+            continue
+        todo.extend(ast.iter_child_nodes(s))
     return True
 
 
